@@ -356,6 +356,16 @@ func applyModel(st *model.State, op *Op, impl *model.Res, now time.Time, lastID 
 	n := ns(op)
 	fo := model.FindOpts{Sort: op.S.doc(), Skip: op.Skip, Limit: op.Limit, Proj: op.P.doc()}
 	switch op.K {
+	case "rmw":
+		r1 := st.FindOne(n, op.D.doc(), model.FindOpts{})
+		cnt := int32(0)
+		if len(r1.Docs) > 0 {
+			if v, ok := model.Get(r1.Docs[0], "n").(int32); ok {
+				cnt = v
+			}
+		}
+		r2 := st.Update(n, op.D.doc(), bson.D{{Key: "$set", Value: bson.D{{Key: "n", Value: cnt + 1}, {Key: "by", Value: op.Tag}}}}, model.UpdateOpts{Upsert: true, Now: now}, gen)
+		return model.Res{Docs: r1.Docs, NoDoc: r1.NoDoc, Matched: r2.Matched, Modified: r2.Modified, Upserted: r2.Upserted, IDs: r2.IDs, Err: r2.Err}
 	case "insertOne":
 		r := st.Insert(n, []bson.D{op.D.doc()}, true, gen)
 		return r
